@@ -14,6 +14,17 @@ Ltac all_ifs :=
          | |- context [if ?c then _ else _] => destruct c eqn:?
          end.
 
+(* destruct the boolean variables that occur in conditions (atoms first, so that
+   every occurrence is replaced), then the integer comparisons *)
+Ltac var_ifs :=
+  repeat (simpl;
+          match goal with
+          | |- context [if ?c then _ else _] =>
+              match c with
+              | context [?x] => is_var x; match type of x with bool => destruct x end
+              end
+          end).
+
 Ltac cmp_atoms :=
   repeat match goal with
          | |- context [(?a <=? ?b)%Z] => destruct (a <=? b)%Z
@@ -21,22 +32,52 @@ Ltac cmp_atoms :=
          | |- context [Nat.eqb ?a ?b] => destruct (Nat.eqb a b)
          end.
 
-Lemma gen_accept_is_model : forall is_bytes t o,
-  gen_accept is_bytes t (view_of_obj o) = type_accept is_bytes t o.
+(* robust to rearrangements of the source: the conversion type is first split
+   into the six characters the code compares it with (then every test
+   computes) and "none of them" (then every comparison is false) *)
+Ltac split_conv t :=
+  destruct (N.eqb_spec t 97); [subst t|];
+  [|destruct (N.eqb_spec t 114); [subst t|];
+  [|destruct (N.eqb_spec t 99); [subst t|];
+  [|destruct (N.eqb_spec t 98); [subst t|];
+  [|destruct (N.eqb_spec t 115); [subst t|];
+  [|destruct (N.eqb_spec t 37); [subst t|]]]]]].
+
+Lemma mem2 : forall t a b, mem t [a; b] = (t =? a) || (t =? b).
+Proof. intros. unfold mem. simpl. rewrite orb_false_r. reflexivity. Qed.
+
+(* the translated function is the hand-written mirror, for every view *)
+Lemma gen_accept_v_is_model : forall is_bytes t v, gen_accept is_bytes t v = type_accept_v is_bytes t v.
 Proof.
-  intros b t o. unfold gen_accept, type_accept, c_limit, ch_a, ch_r, ch_c, ch_b, ch_s, ch_pct.
-  destruct (mem t integer_conversion_types);
-    [destruct o as [z|[|]|f|s|s|m]; reflexivity|].
-  destruct (mem t numeric_conversion_types);
-    [destruct o as [z|[|]|f|s|s|m]; reflexivity|].
-  assert (mem t [97; 114] = (t =? 97) || (t =? 114)) as Ear by (unfold mem; simpl; rewrite orb_false_r; reflexivity).
-  rewrite Ear. clear Ear.
-  destruct ((t =? 97) || (t =? 114)); [reflexivity|].
-  destruct (t =? 99).
+  intros b t [k i n ii byt st z sb l].
+  unfold gen_accept, type_accept_v, c_limit, ch_a, ch_r, ch_c, ch_b, ch_s, ch_pct. simpl.
+  split_conv t.
+  1-6: (var_ifs; simpl; cmp_atoms; reflexivity).
+  rewrite ?mem2.
+  repeat match goal with
+         | H : t <> ?k |- _ => apply N.eqb_neq in H; rewrite ?H; clear H
+         end.
+  destruct (mem t integer_conversion_types); destruct (mem t numeric_conversion_types);
+    var_ifs; simpl; cmp_atoms; reflexivity.
+Qed.
+
+(* the mirror on the view of a literal is the literal model (hand-written on both sides) *)
+Lemma type_accept_v_obj : forall is_bytes t o,
+  type_accept_v is_bytes t (view_of_obj o) = type_accept is_bytes t o.
+Proof.
+  intros b t o. unfold type_accept_v, type_accept, c_limit.
+  destruct (mem t integer_conversion_types); [destruct o as [z|[|]|f|s|s|m]; reflexivity|].
+  destruct (mem t numeric_conversion_types); [destruct o as [z|[|]|f|s|s|m]; reflexivity|].
+  destruct ((t =? ch_a) || (t =? ch_r)); [reflexivity|].
+  destruct (t =? ch_c).
   { destruct b; destruct o as [z|[|]|f|s|s|m]; simpl; cmp_atoms; reflexivity. }
-  destruct (t =? 98); destruct (t =? 115); destruct (t =? 37);
+  destruct (t =? ch_b); destruct (t =? ch_s); destruct (t =? ch_pct);
     destruct b; destruct o as [z|[|]|f|s|s|m]; reflexivity.
 Qed.
+
+Lemma gen_accept_is_model : forall is_bytes t o,
+  gen_accept is_bytes t (view_of_obj o) = type_accept is_bytes t o.
+Proof. intros. rewrite gen_accept_v_is_model. apply type_accept_v_obj. Qed.
 
 Lemma gen_star_is_model : forall o,
   gen_star_accept (view_of_obj o) = (if int_like o then [] else [EStar]).
